@@ -38,11 +38,11 @@ F32_TOL = 5e-5          # float32 containers: round-off of float32 arithmetic (D
 
 RULE = ('entry points: the table tools/harness/c01_entries.py (public estimators and matrix-taking functions of ranking, clustering, '
         'hierarchy, embedding, classification, regression, linkpred, gnn, path, topology, visualization, utils, linalg; their number '
-        'is `entries` in this evidence). Graph kinds per entry: undirected / connected undirected / directed / bipartite in turn, '
+        'is `entries` in this evidence). Graph kinds per entry: undirected / triangle-rich undirected (7-16 nodes, every entry that runs on undirected graphs) / connected undirected / directed / bipartite in turn, '
         'n <= 11, weights unit, {1,2,3}, dyadic fractions or {1,100,200}; per graph the reference is the float64 sorted CSR and the '
         'representations are drawn as (container format) x (dtype): every format of the entry\'s policy once with a random '
         'representable dtype, then every representable dtype not yet drawn with a random format — formats csr, csr_unsorted '
-        '(shuffled column indices), csc, coo, coo_dup (duplicate entries, shuffled order), lil, '
+        '(shuffled column indices), csr_reversed (column indices of every row in decreasing order), csc, coo, coo_dup (duplicate entries, shuffled order), lil, '
         'dense; dtypes float64, float32, int64, int32, int8, uint8, bool; entries whose documented input is sparse.csr_matrix only '
         'get the CSR formats (csr+dense: and ndarray); bipartite graphs go through the *_row / *_col arguments; labels / values / weights are passed as '
         'dict, array or list in turn; explicit stored zeros are not among the representations the property lists and are not '
@@ -261,7 +261,7 @@ def deser(x):
 def _differs_from_reference(a, rep, fmt, dtype):
     if a.nnz == 0:
         return False
-    if fmt != 'csr_unsorted':
+    if fmt not in ('csr_unsorted', 'csr_reversed'):
         return True
     if dtype != 'float64':
         return True
@@ -336,6 +336,11 @@ def compare_case(E, a, aux, kind, reps):
     void = E.top_simple and top_singular_multiple(a)      # HITS: the leading singular pair is not defined
     for rname, fmt, dtype, seed in reps:
         rep = T.apply_rep(a, fmt, dtype, seed)
+        if fmt in ('csr_unsorted', 'csr_reversed'):
+            # what reaches the entry: the flag scipy consults is off, and some row really is out of order
+            out_of_order = any(np.any(np.diff(rep.indices[rep.indptr[i]:rep.indptr[i + 1]]) < 0) for i in range(rep.shape[0]))
+            rec['counts'].append('unsorted-at-the-call:' + ('rows-out-of-order' if out_of_order and not rep.has_sorted_indices
+                                                                else 'every-row-has-at-most-one-entry-or-shuffle-is-identity'))
         made = []
         before, aux2 = snapshot(rep), copy.deepcopy(aux)
         out, err = _call(E, rep, aux2, _make_conv(fmt, dtype, seed, made))
